@@ -1,8 +1,8 @@
 package props
 
 import (
-	"strings"
 	"fmt"
+	"strings"
 
 	"golang.org/x/tools/go/ssa"
 
